@@ -227,7 +227,7 @@ def _nested(extra):
 def run(ctx):
     common.build("build/vd/vdriver")
     known = {k for k, r in common.load_known(ctx.pid).items() if r.get("status") == "known"}
-    res = hyp.run_property(ctx, cases(), judge, ctx.pick(12000, 300000), known_keys=known, time_budget=ctx.pick(300, 3600))
+    res = hyp.run_property(ctx, cases(), judge, ctx.pick(8000, 300000), known_keys=known, time_budget=ctx.pick(300, 3600))
     return common.finish(ctx, res, "exploration", RULE,
                          ["termination is not decided: a 60 s guard expiry is counted as inconclusive",
                           "my .sol parser (verif/solfile.py) defines 'well-formed'",
